@@ -268,3 +268,75 @@ def s07_step_once(ctx, only_types=None, rule_id='S07'):
     r.info.update({'fields': nfields, 'functions': nfn, 'exceptions_used': sorted(used_exc),
                    'stale_exceptions': sorted(set(STEP_EXCEPTIONS) - used_exc) if not only_types else []})
     return r
+
+
+# ---------------------------------------------------------------------------------------------------------------
+# S07n: the construction value reaches the constructed state
+# ---------------------------------------------------------------------------------------------------------------
+S07N_EXCEPTIONS = {
+    # type -> (reason, predicate on the printed payload that must hold for the exception to apply)
+    'ADI': ('windowless ADI (length 0) is the documented cumulative mode: it starts from zero', 'Window::<f64>::empty'),
+    'CollapseTimeframe': ('a fresh chunk is started by the first input itself; the method is one of the counting methods the properties exempt', ''),
+}
+
+
+def s07n_seed_reaches_state(ctx, only_types=None, rule_id='S07n'):
+    """`Method::new(params, &value)` documents value as "initial value (simply first input value)". On every path that returns Ok the
+    constructed state must be computed from that value: a constructor that builds its state from defaults (or primes copies it then
+    throws away) starts from no history at all instead of the constant prehistory of `value`."""
+    from paths import enumerate_paths
+    from symexec import PathSym
+    from mir import walk_tree, tree_str
+    f = ctx.facts('default')
+    m = Model(f)
+    r = RuleResult(rule_id, 'the state Method::new returns is computed from the construction value on every Ok path')
+    n = 0
+    for impl in m.method_impls:
+        adt = m.adt_path_of_impl(impl)
+        if not adt:
+            continue
+        short = adt.rsplit('::', 1)[-1]
+        if only_types and short not in only_types:
+            continue
+        pth = m.impl_fn_path(impl, 'new')
+        b = m.body_inlined(pth, prefer_mono=False) if pth else None
+        if b is None or b.arg_count != 2:
+            continue
+        # a unit-like method without any state has nothing to seed
+        fields = [fl for v in f.adts.get(adt, {}).get('variants', []) for fl in v['fields']]
+        if not fields:
+            continue
+        n += 1
+        try:
+            paths = list(enumerate_paths(b, limit=3000))
+        except Exception:
+            r.undecided.append('%s::new: too many paths' % short)
+            continue
+        for path in paths:
+            ps = PathSym(b, path)
+            if not ps.returns or ps.infeasible or ps.ret is None:
+                continue
+            t = ps.ret
+            while isinstance(t, tuple) and t and t[0] in ('ref', 'deref'):
+                t = t[1]
+            if t[0] == 'agg' and t[1] == 'adt' and str(t[2]).endswith('Result::Err'):
+                continue
+            if t[0] == 'call' and 'from_residual' in t[1]:
+                continue
+            key = '%s|new' % short
+            r.inst(key)
+            if any(isinstance(x, tuple) and x and x[0] == 'arg' and x[1] == 2 for x in walk_tree(t)):
+                continue
+            try:
+                shown = tree_str(t)
+            except Exception:
+                shown = str(t)
+            exc = S07N_EXCEPTIONS.get(short)
+            if exc and (not exc[1] or exc[1] in shown):
+                r.sample({'type': short, 'exception': exc[0]})
+                continue
+            r.violate(key + '|value-unused', '%s::new returns, on a path that succeeds, a state that does not depend on the construction value (%s): '
+                      'the instance starts from defaults, not from the constant prehistory of its first input' % (short, shown[:100]), b.file, b.line)
+            break
+    r.floor('method constructors', 30 if not only_types else len(only_types), n)
+    return r
